@@ -231,7 +231,10 @@ func negotiateFeatures(ctx context.Context, s *Session, first, ws bool, features
 		} else {
 			// If we need to try and negotiate StartTLS even though it wasn't
 			// advertised, select it.
-			if doStartTLS && startTLS.Name.Space == ns.StartTLS {
+			// Only being advertised is waived for this attempt: the feature must
+			// still be negotiable and its own prerequisites must hold.
+			if doStartTLS && startTLS.Name.Space == ns.StartTLS && startTLS.Negotiate != nil &&
+				s.state&startTLS.Necessary == startTLS.Necessary && s.state&startTLS.Prohibited == 0 {
 				data = sfData{
 					req:     true,
 					feature: startTLS,
